@@ -347,6 +347,13 @@ pub fn all_seeds_with(radius2: bool) -> Vec<(String, Target, V, Vec<u8>)> {
             let bytes = t.bytes(&wire);
             out.push((format!("{}:{}", t.name(), label), t.clone(), wire, bytes));
         }
+        if b == 0x0c {
+            // fragment / offset sizes beyond the feature-dependent fragment constant (3008)
+            let big = V::M(vec![(V::U(2), V::B(vec![0x77; 3009])), (V::U(3), V::U(0)), (V::U(4), V::U(3009))]);
+            out.push((format!("{}:set-3009-bytes", t.name()), t.clone(), big.clone(), t.bytes(&big)));
+            let get = V::M(vec![(V::U(1), V::U(3009)), (V::U(3), V::U(70000))]);
+            out.push((format!("{}:get-3009", t.name()), t.clone(), get.clone(), t.bytes(&get)));
+        }
         if b == 0x01 {
             // the relying-party icon under its legacy key `url`
             let mut wire = plan.build(plan.full_mask(), &[]);
@@ -412,4 +419,28 @@ pub fn sweep_replacements(ctx: &'static Ctx, prop: &'static str, name: &str, not
             l.fail(ctx, idx, v, || case_json(&s.target, &wire, json!({"seed": s.label, "member": r.name, "value": r.what})));
         }
     });
+}
+
+/// seed messages that carry unknown text-keyed members in every extensible map (for robustness
+/// and status tallies; not used where the reference decoder's verdict on the fault is asserted)
+pub fn seeds_with_unknown_members() -> Vec<(String, Vec<u8>)> {
+    let mut out = Vec::new();
+    for (label, target, wire, _) in all_seeds() {
+        if !label.ends_with(":full") {
+            continue;
+        }
+        let mut w = wire.clone();
+        let mut n = 0;
+        for s in crate::treewalk::sites(&target.schema(), &wire) {
+            if let Ty::Struct(Keys::Text, _) = &s.ty {
+                let vals = [V::A(vec![V::t("usb"), V::t("nfc")]), V::U(300), V::M(vec![(V::U(1), V::N(24))]), V::Tag(24, Box::new(V::B(vec![1, 2]))), V::F32(0x3f800000)];
+                w = crate::treewalk::inserted(&w, &s.path, usize::MAX, V::t(&format!("unknown{}", n)), vals[n % vals.len()].clone());
+                n += 1;
+            }
+        }
+        if n > 0 {
+            out.push((format!("{}+unknown-members", label), target.bytes(&w)));
+        }
+    }
+    out
 }
